@@ -12,7 +12,7 @@ import (
 	"github.com/anishathalye/porcupine"
 )
 
-const Keys = 2
+const Keys = 3
 
 // Op is one recorded API call.
 type Op struct {
